@@ -20,7 +20,7 @@ TRUSTED = ['hand-written pass models coq/Passes/Edit.v tied to cvise/passes/*.py
 ASSUMPTIONS = ['byte-level statement needs inputs without CR characters: Python text mode rewrites CR / CRLF as LF on reading (known finding F-CR)']
 IMPORTS = ['From CV Require Import Matcher.NM Matcher.NMCorr Passes.Edit Passes.PassCorr.']
 
-TOKENS = ['a', 'b1', '(', ')', '{', '}', '[', ']', '<', '>', '=', ',', ':', '?', ';', "'x'", '0', '12', '0x1F', '7U', '-3', ' ', ' ', '\n', '\n',
+TOKENS = ['/***/', '/** d **/', '/* a **/', '/*/', 'a', 'b1', '(', ')', '{', '}', '[', ']', '<', '>', '=', ',', ':', '?', ';', "'x'", '0', '12', '0x1F', '7U', '-3', ' ', ' ', '\n', '\n',
           '# 3 "f.c"\n', '#include <a.h>\n', '// c\n', '/* k */', '/**/', 'while', 'int', 'class', "extern 'C'", 'transparent_crc(a, b)', '\n\n', '#if X\n', '+=', '+']
 
 
@@ -191,6 +191,26 @@ def explore(ctx):
         bs = [m.span() for m in re.finditer(r'/\*(?:\*(?!/)|[^*])*\*/', text, flags=re.DOTALL)]
         ls_ = [m.span() for m in re.finditer(r'//.*$', text, flags=re.MULTILINE)]
         sp = lambda l: ('[' + '; '.join(f'({a}, {b})' for a, b in l) + ']') if l else '(@nil span)'
+        def strip_block(t):
+            # hand-written scanner: from each "/*" to the first "*/" after it
+            out_, i_ = [], 0
+            while i_ < len(t):
+                if t.startswith('/*', i_):
+                    j_ = t.find('*/', i_ + 2)
+                    if j_ >= 0:
+                        i_ = j_ + 2
+                        continue
+                out_.append(t[i_])
+                i_ += 1
+            return ''.join(out_)
+
+        def strip_line(t):
+            out_ = []
+            for ln_ in re.split('(\n)', t):
+                k_ = ln_.find('//')
+                out_.append(ln_ if k_ < 0 or ln_ == '\n' else ln_[:k_])
+            return ''.join(out_)
+
         for st in (-2, -1, 0):
             res, out, st2, left = run_transform(ctx, p, text, st)
             ctx.evaluations += 1
@@ -198,6 +218,9 @@ def explore(ctx):
             rep = {'pass': 'comments', 'text': text, 'state': st}
             if res == 'OK':
                 ctx.nontriv(('comments', text, st))
+                want_ = strip_block(text) if st == -2 and strip_block(text) != text else strip_line(strip_block(text) if st == -2 else text)
+                if st in (-2, -1) and out != want_ and not (st == -2 and out == strip_line(text) and strip_block(text) == text):
+                    viol('bad-edit:comments', f'comments on {text!r} st={st}: got {out!r}, removing exactly the comments gives {want_!r}', rep)
                 if out == text or not is_subseq(out, text):
                     viol('bad-edit:comments', f'comments on {text!r} st={st}: {out!r}', rep)
             cs.add('run_comments', f'({ct(text)}, {sp(bs)}, {sp(ls_)}, ({st})%Z)', [{'OK': 0, 'STOP': 2}[res], st2] + enc_text(out) + [1, 1])
@@ -211,13 +234,23 @@ def explore(ctx):
             sts = states_all_reject(p, path, 20)
             # offering: under all-reject exactly the positions with a match, increasing
             expected = []
-            pos = 0
-            while True:
-                m = nm.find(nm.BalancedExpr[{'square': 'squares', 'angles': 'angles', 'parens': 'parens', 'curly': 'curlies'}[kind]], text, pos=pos, prefix=prefix)
-                if m is None or len(expected) >= 20:
-                    break
-                expected.append(m)
-                pos = m[0] + 1
+            if prefix:
+                pos = 0
+                while True:
+                    m = nm.find(nm.BalancedExpr[{'square': 'squares', 'angles': 'angles', 'parens': 'parens', 'curly': 'curlies'}[kind]], text, pos=pos, prefix=prefix)
+                    if m is None or len(expected) >= 20:
+                        break
+                    expected.append(m)
+                    pos = m[0] + 1
+            else:
+                # independent of nestedmatcher: every opener that has its closer, by a stack
+                stack, pairs = [], {}
+                for i_, ch_ in enumerate(text):
+                    if ch_ == o:
+                        stack.append(i_)
+                    elif ch_ == c and stack:
+                        pairs[stack.pop()] = i_ + 1
+                expected = [(a_, pairs[a_]) for a_ in sorted(pairs)][:20]
             if sts != expected[:len(sts)] or (len(sts) < 20 and len(sts) != len(expected)):
                 viol('not-all-offered:balanced', f'balanced::{arg} on {text!r}: offered {sts}, matches {expected}', {'pass': 'balanced', 'arg': arg, 'text': text})
             tbl = '(@nil (list nat))'
